@@ -24,6 +24,7 @@ type c16Input struct {
 	Probes    string `json:"probes"`                         // none | exec | http | both
 	Only      string `json:"only_templated_field,omitempty"` // when set, this is the only field that carries a template
 	Disabled  bool   `json:"disabled,omitempty"`             // the templated process is disabled: true (it can be started by hand)
+	Nested    bool   `json:"nested_var,omitempty"`           // a process variable whose value is a mapping, used as {{.DB.host}}
 	Flags     string `json:"flags,omitempty"`                // further options of the templated process that do not change what is rendered
 	Mode      string `json:"map_order"`
 }
@@ -46,6 +47,9 @@ func (in c16Input) tpl(field string) string {
 	if in.LocalVar {
 		s += "-{{.L}}"
 	}
+	if in.Nested {
+		s += "-{{.DB.host}}"
+	}
 	return s
 }
 
@@ -63,8 +67,14 @@ func (in c16Input) yaml() string {
 	if in.Replicas > 0 {
 		fmt.Fprintf(&b, "    replicas: %d\n", in.Replicas)
 	}
-	if in.LocalVar {
-		b.WriteString("    vars:\n      L: lval\n")
+	if in.LocalVar || in.Nested {
+		b.WriteString("    vars:\n")
+		if in.LocalVar {
+			b.WriteString("      L: lval\n")
+		}
+		if in.Nested {
+			b.WriteString("      DB:\n        host: dbh\n        port: 5432\n")
+		}
 	}
 	if in.Disabled {
 		b.WriteString("    disabled: true\n")
@@ -177,6 +187,12 @@ func c16E2(tier string, o *E2Out) {
 					}
 					in := c16Input{Replicas: r, GlobalVar: g, LocalVar: l, Probes: pr}
 					c16One(o, dir, in, tier == "thorough" || r <= 3)
+					// a variable whose value is a mapping
+					if pr == "both" && (r == 1 || r == 2) && !g {
+						in4 := in
+						in4.Nested = true
+						c16One(o, dir, in4, false)
+					}
 					// rendering does not depend on whether and how the process is going to be run
 					if pr == "both" && (r == 1 || r == 2) {
 						in2 := in
@@ -271,6 +287,9 @@ func c16One(o *E2Out, dir string, in c16Input, full bool) {
 			}
 			if in.LocalVar {
 				vars["L"] = "lval"
+			}
+			if in.Nested {
+				vars["DB"] = map[string]any{"host": "dbh", "port": 5432}
 			}
 			chk := func(field, got, tpl string) {
 				if w := refRender(tpl, vars); got != w {
